@@ -354,7 +354,7 @@ func (p *printer) group(x *ast.Group) {
 }
 
 func (p *printer) arithEval(x *ast.ArithEval) {
-	p.arithExpr(x.Left.Line() == x.Right.Line(), "((", x.Expr)
+	p.arithExpr(x.Left.Line() == x.Right.Line() && p.flatWord(x.Expr), "((", x.Expr)
 }
 
 func (p *printer) forClause(x *ast.ForClause) {
@@ -586,14 +586,24 @@ func (p *printer) oneLine(x ast.CmdExpr) bool {
 	case *ast.Subshell:
 		return len(x.List) == 1 && x.Lparen.Line() == x.Rparen.Line() && p.flat(x.List[0])
 	case *ast.Group:
-		return len(x.List) == 1 && x.Lbrace.Line() == x.Rbrace.Line() && p.flat(x.List[0])
+		return x.Lbrace.Line() == x.Rbrace.Line() && p.inline(x.List)
 	case *ast.ForClause:
+		for _, w := range x.Items {
+			if !p.flatWord(w) {
+				return false
+			}
+		}
 		return x.For.Line() == x.Done.Line() && p.inline(x.List)
 	case *ast.CaseClause:
-		if x.Case.Line() != x.Esac.Line() {
+		if x.Case.Line() != x.Esac.Line() || !p.flatWord(x.Word) {
 			return false
 		}
 		for _, c := range x.Items {
+			for _, w := range c.Patterns {
+				if !p.flatWord(w) {
+					return false
+				}
+			}
 			if len(c.List) > 1 || len(c.List) == 1 && !p.flat(c.List[0]) {
 				return false
 			}
@@ -652,7 +662,113 @@ func (p *printer) flat(c ast.Command) bool {
 			}
 		}
 	case *ast.Cmd:
+		for _, r := range c.Redirs {
+			if !p.flatWord(r.Word) {
+				return false
+			}
+		}
+		if x, ok := c.Expr.(*ast.SimpleCmd); ok {
+			for _, a := range x.Assigns {
+				if !p.flatWord(a.Value) {
+					return false
+				}
+			}
+			for _, w := range x.Args {
+				if !p.flatWord(w) {
+					return false
+				}
+			}
+		}
 		return p.oneLine(c.Expr)
+	}
+	return true
+}
+
+// flatCmdSubst reports whether the command substitution w is printed on
+// one line. A here-document needs the lines after the one of its operator.
+func (p *printer) flatCmdSubst(w *ast.CmdSubst) bool {
+	return len(w.List) == 1 && w.Left.Line() == w.Right.Line() && p.flat(w.List[0]) && !p.heredocIn(w.List[0])
+}
+
+// heredocIn reports whether a here-document is redirected in n.
+func (p *printer) heredocIn(n ast.Node) bool {
+	var rv bool
+	switch n := n.(type) {
+	case ast.List:
+		for _, ao := range n {
+			rv = rv || p.heredocIn(ao)
+		}
+	case *ast.AndOrList:
+		rv = p.heredocIn(n.Pipeline)
+		for _, ao := range n.List {
+			rv = rv || p.heredocIn(ao.Pipeline)
+		}
+	case *ast.Pipeline:
+		rv = p.heredocIn(n.Cmd)
+		for _, pp := range n.List {
+			rv = rv || p.heredocIn(pp.Cmd)
+		}
+	case *ast.Cmd:
+		for _, r := range n.Redirs {
+			rv = rv || r.Heredoc != nil
+		}
+		switch x := n.Expr.(type) {
+		case *ast.Subshell:
+			rv = rv || p.heredocIn(x.List[0])
+		case *ast.Group:
+			rv = rv || p.heredocIn(x.List[0])
+		case *ast.FuncDef:
+			rv = rv || p.heredocIn(x.Body)
+		case *ast.ForClause:
+			rv = rv || p.heredocIn(x.List[0])
+		case *ast.CaseClause:
+			for _, c := range x.Items {
+				rv = rv || len(c.List) != 0 && p.heredocIn(c.List[0])
+			}
+		case *ast.IfClause:
+			rv = rv || p.heredocIn(x.Cond[0]) || p.heredocIn(x.List[0])
+			for _, e := range x.Else {
+				switch e := e.(type) {
+				case *ast.ElifClause:
+					rv = rv || p.heredocIn(e.Cond[0]) || p.heredocIn(e.List[0])
+				case *ast.ElseClause:
+					rv = rv || p.heredocIn(e.List[0])
+				}
+			}
+		case *ast.WhileClause:
+			rv = rv || p.heredocIn(x.Cond[0]) || p.heredocIn(x.List[0])
+		case *ast.UntilClause:
+			rv = rv || p.heredocIn(x.Cond[0]) || p.heredocIn(x.List[0])
+		}
+	}
+	return rv
+}
+
+// flatWord reports whether the word w is printed on one line.
+func (p *printer) flatWord(w ast.Word) bool {
+	for _, w := range w {
+		switch w := w.(type) {
+		case *ast.Lit:
+			if strings.ContainsRune(w.Value, '\n') {
+				return false
+			}
+		case *ast.Quote:
+			if !p.flatWord(w.Value) {
+				return false
+			}
+		case *ast.ParamExp:
+			if !p.flatWord(w.Word) {
+				return false
+			}
+		case *ast.CmdSubst:
+			if !p.flatCmdSubst(w) {
+				return false
+			}
+		case *ast.ArithExp:
+			if w.Left.Line() != w.Right.Line() || !p.flatWord(w.Expr) {
+				return false
+			}
+		}
 	}
 	return true
 }
@@ -810,7 +926,7 @@ func (p *printer) cmdSubst(w *ast.CmdSubst) {
 	} else {
 		p.w.WriteByte('`')
 	}
-	if len(w.List) > 1 || w.Left.Line() != w.Right.Line() || !p.flat(w.List[0]) {
+	if !p.flatCmdSubst(w) {
 		base := p.base
 		p.base = len(p.stack)
 		p.compoundList(w.List)
@@ -844,7 +960,7 @@ func (p *printer) compoundList(cmds []ast.Command) {
 }
 
 func (p *printer) arithExp(w *ast.ArithExp) {
-	p.arithExpr(w.Left.Line() == w.Right.Line(), "$((", w.Expr)
+	p.arithExpr(w.Left.Line() == w.Right.Line() && p.flatWord(w.Expr), "$((", w.Expr)
 }
 
 func (p *printer) arithExpr(list bool, left string, x ast.Word) {
